@@ -102,4 +102,19 @@ SPEC = {
             {"name": "random", "test": "TestC12", "checks": [1500, 12000], "shards": [4, 14], "timeout": [900, 7200]},
         ],
     },
+    "C10": {
+        "level": "exploration",
+        "rule": "a generated C01-style history (with and without snapshot thresholds) is brought to a quiescent point, then: (optionally) a non-forced "
+                "compaction while clients are attached must report not-compacted and leave epoch/head/rows unchanged; then either every client "
+                "detaches and a non-forced compaction must succeed, or clients make unsent edits and a forced compaction runs through the real "
+                "cluster RPC; oracle: epoch strictly increases; a fresh attach shows byte-identical content to before; each stale client draws "
+                "{sync, detach}: the sync fails with ErrEpochMismatch and the log gains no row, the detach succeeds, marks the client detached and "
+                "stores no old-generation operations; fresh clients continue with generated edits and converge; optional second compaction. "
+                "non-trivial = a compaction happened and a stale client holding unsent edits synced afterwards (forced mode) or >2 edits preceded "
+                "a detached-mode compaction; distinct = distinct program hash",
+        "assumptions": ["in-memory database backend", "compaction is driven through documents.CompactDocument (the cluster RPC path with the exclusive document lock)"],
+        "parts": [
+            {"name": "random", "test": "TestC10", "checks": [1000, 10000], "shards": [4, 14], "timeout": [900, 7200]},
+        ],
+    },
 }
